@@ -33,7 +33,21 @@ def run(ck, F, E):
         "inv": "EXEMPT", "why": "decoding InitializeParams: malformed client messages are outside the property's quantifier",
         "check": None}
     from props.C05 import analyzer_deps
-    G, seen, T = panics.panic_freedom(ck, F, E, "C20", [ml.path], rows, analyzer_deps(), exempt_fns=EXEMPT, floor_sites=40)
+    # malformed parameters of a client message are outside the property's quantifier ("arbitrary document text", not arbitrary
+    # JSON): a function of the server is exempt when all it can panic on is the JsonError arm of an ExtractError it matches
+    exempt = list(EXEMPT)
+    for p, b in F.bodies.items():
+        if b.crate != "abasic_lsp" or "{closure" in p:
+            continue
+        arms = []
+        for bb in sorted(b.reachable()):
+            info = b.switch_info(bb)
+            if info and info[3] and "JsonError" in info[3].values():
+                arms += [info[1].get(v, info[2]) for v, n in info[3].items() if n == "JsonError"]
+        pcs = [c for c in b.calls() if "panicking" in c.callee and c.target is None]
+        if arms and pcs and all(any(a is not None and (a == c.bb or b.dominates(a, c.bb)) for a in arms) for c in pcs):
+            exempt.append(p)
+    G, seen, T = panics.panic_freedom(ck, F, E, "C20", [ml.path], rows, analyzer_deps(), exempt_fns=tuple(exempt), floor_sites=40)
     panics.recursion_rule(ck, F, G, seen, "C20")
     units(ck, F)
     delta_encoding(ck, F)
@@ -163,36 +177,55 @@ def analysis_stored(ck, F, ml):
     """Semantic tokens are answered from the document table, so every analysis of an opened / changed text must reach the table
     (`insert` under the notification's URI on every path that goes on), or later token requests are answered from an older text
     -- positions outside the current document."""
-    an = ml.calls_to("SourceFileAnalyzer::analyze")
-    pd = ml.postdominators()
     k = 0
-    for c in an:
+    for (hb, c) in analysis_sites(F):
         k += 1
-        ins = [x for x in ml.calls() if x.callee.split("::")[-1] == "insert" and "HashMap" in x.callee and
-               any(len(y) > 3 and y[3] is c for a in x.args for y in expr_calls(ml.expr(a, depth=30)))]
+        pd = hb.postdominators()
+        ins = [x for x in hb.calls() if x.callee.split("::")[-1] == "insert" and "HashMap" in x.callee and
+               any(len(y) > 3 and y[3] is c for a in x.args for y in expr_calls(hb.expr(a, depth=30)))]
         # an insert that every continuing path passes: it post-dominates the analysis, up to error exits
-        ok = any(x.bb in pd.get(c.bb, set()) or ml.dominates(c.bb, x.bb) and
-                 not [r for r in ml.blocks_reachable_from(c.target or c.bb, avoid={x.bb}) if r in loops_header(ml)] for x in ins)
+        ok = any(x.bb in pd.get(c.bb, set()) or hb.dominates(c.bb, x.bb) and
+                 not [r for r in hb.blocks_reachable_from(c.target or c.bb, avoid={x.bb}) if r in loops_header(hb)] for x in ins)
         ck.require(ok, "C20:DIAG:analysis-stored#%d" % k, "nothing filtered",
                    "the analysis is inserted into the document table before the loop goes on",
                    "main_loop analyses a text without storing the analysis in the document table (on some path): semantic tokens "
                    "for that document keep coming from an older text", c.span)
 
 
+def analysis_sites(F):
+    """(body, call) for every SourceFileAnalyzer::analyze call of the server -- in main_loop or in a handler it delegates to"""
+    return [(b, c) for p, b in sorted(F.bodies.items()) if b.crate == "abasic_lsp" for c in b.calls_to("SourceFileAnalyzer::analyze")]
+
+
+def text_sources(F, hb, c):
+    """Where the analysed text comes from: the argument expression, followed through one level of helper parameter."""
+    e = strip_expr(hb.expr(c.args[0], depth=30))
+    if e[0] == "param" and not hb.path.endswith("::main_loop"):
+        out = []
+        for cb in F.bodies.values():
+            if cb.crate != "abasic_lsp":
+                continue
+            for cc in cb.calls():
+                if cc.callee == hb.path and e[1] < len(cc.args):
+                    out.append((cb, cc, cc.args[e[1]]))
+        return out
+    return [(hb, c, c.args[0])]
+
+
 def answers_sent(ck, F, ml):
     """"answers each with diagnostics for the latest text": every analysis in main_loop is followed, on every path that goes on,
     by a send_notification whose parameters carry analyze_source_file(<that analysis>); and send_notification really hands the
     notification it builds to the connection's sender."""
-    pd = ml.postdominators()
     k = 0
-    for c in ml.calls_to("SourceFileAnalyzer::analyze"):
+    for (hb, c) in analysis_sites(F):
         k += 1
         ok = False
-        for x in ml.calls():
-            if "send_notification" not in x.callee or not (x.bb in pd.get(c.bb, set()) or ml.dominates(c.bb, x.bb)):
+        pd = hb.postdominators()
+        for x in hb.calls():
+            if "send_notification" not in x.callee or not (x.bb in pd.get(c.bb, set()) or hb.dominates(c.bb, x.bb)):
                 continue
             for a in x.args:
-                e = ml.expr(a, depth=30)
+                e = hb.expr(a, depth=30)
                 az = [y for y in expr_calls(e) if y[1].endswith("analyze_source_file")]
                 if az and any(len(z) > 3 and z[3] is c for y in az for z in expr_calls(y[2][0])):
                     if x.bb in pd.get(c.bb, set()):
@@ -255,9 +288,10 @@ def units(ck, F):
     if az is None:
         ck.missing("C20:UTF16:analyze_source_file", "abasic_lsp::analyze_source_file")
     else:
-        pos = [c for c in az.calls() if c.callee.endswith("Position::new")]
+        from lib import with_closures
+        pos = [(b, c) for b in with_closures(F, az) for c in b.calls() if c.callee.endswith("Position::new")]
         ck.floor("C20.Position::new sites", len(pos), 1)
-        bad = [c for c in pos if only_casts_of_bytes(az, az.expr(c.args[1]))]
+        bad = [c for (b, c) in pos if only_casts_of_bytes(b, b.expr(c.args[1]))]
         ck.require(not bad, "C20:UTF16:analyze_source_file", "position units",
                    "diagnostic columns pass through a conversion that consults the line text",
                    "Position.character is a UTF-8 byte offset copied from map_to_source() (%s): on a line with non-ASCII "
@@ -471,26 +505,35 @@ def _ops(rv):
 def unfiltered(ck, F, ml):
     az = F.one("analyze_source_file", "abasic_lsp")
     if az is not None:
-        ok = bool(az.calls_to("SourceFileAnalyzer::messages")) and bool(az.calls_to("SourceFileMap::map_to_source")) \
-            and any(c.callee.endswith("Vec::push") for c in az.calls()) and bool(az.natural_loops())
-        skips = [c.callee.split("::")[-1] for c in az.calls() if c.callee.split("::")[-1] in
+        from lib import with_closures
+        parts = with_closures(F, az)
+        allc = [c for b in parts for c in b.calls()]
+        has = lambda sfx_: any(sfx(c.callee, sfx_) for c in allc)
+        loop_form = any(c.callee.endswith("Vec::push") for c in az.calls()) and bool(az.natural_loops())
+        # chain form: messages().iter().filter_map(|m| { let (l, r) = map.map_to_source(m)?; ..; Some(diag) }).collect() -- the only
+        # way an element is dropped is the `?` on map_to_source (the same skip the loop form makes with `if let Some(..)`)
+        chain_form = any(c.callee.split("::")[-1] in ("collect", "extend") for c in az.calls()) and \
+            not any(pl["local"] == 0 and not pl["proj"] for b in parts[1:] for (bb, i, pl, rv, sp) in aggregates(b, "core::option::Option", "None"))
+        ok = has("SourceFileAnalyzer::messages") and has("SourceFileMap::map_to_source") and (loop_form or chain_form)
+        skips = [c.callee.split("::")[-1] for c in allc if c.callee.split("::")[-1] in
                  ("filter", "skip", "take", "step_by", "take_while", "skip_while", "dedup", "truncate", "retain")]
         ck.require(ok and not skips, "C20:DIAG:all-messages", "nothing filtered",
                    "analyze_source_file loops over messages() and pushes one Diagnostic per mapped message",
                    "analyze_source_file filters or truncates the analyzer's messages (%s)" % skips, az.span)
     # both notification handlers analyse the text of the message they received and publish for its URI
-    an = ml.calls_to("SourceFileAnalyzer::analyze")
-    ck.floor("C20.analysis call sites in main_loop", len(an), 1)
+    srcs = [t for (hb, c0) in analysis_sites(F) for t in text_sources(F, hb, c0)]
+    ck.floor("C20.analysis call sites of the server", len(srcs), 1)
     k = 0
-    for c in an:
+    ml_main = ml
+    for (ml, c, arg) in srcs:
         k += 1
-        txt = show(ml.expr(c.args[0]))
+        txt = show(ml.expr(arg))
         ck.require(".text" in txt, "C20:DIAG:latest-text#%d" % k, "nothing filtered",
                    "analyze() receives the text carried by the notification",
                    "a notification handler analyses something other than the text it was sent: %s" % txt, c.span)
         # a change notification may carry several change events; with full-document sync each carries a whole text and the
         # latest text is the LAST of them
-        e = ml.expr(c.args[0], depth=30)
+        e = ml.expr(arg, depth=30)
         if ".content_changes" in txt or "content_changes" in repr(e):
             picks = []
             for x in expr_calls(e):
@@ -511,6 +554,7 @@ def unfiltered(ck, F, ml):
                        "the didChange handler picks the text to analyse with %s: when a notification carries several change "
                        "events the diagnostics are for a stale text, not the latest one" % (",".join(picks) or "no selection"), c.span)
 
+    ml = ml_main
 
     # diagnostics and tokens always reflect the latest text: the document table is only ever overwritten (`insert`) or
     # pruned -- never consulted first (`entry().or_insert_with(..)`, `get_or_insert..`, `contains_key` guarding the analysis),
